@@ -205,6 +205,8 @@ impl Router {
         }
 
         let server = self.server();
+        #[cfg(feature = "verif-hooks")]
+        verif::emit(verif::Event::Acquired(request.id.clone()));
         let response = match request.method.as_str() {
             "textDocument/inlayHint" => InlayHintParams::deserialize(request.params)
                 .map(|params| server.handle_inlay_hints(params))
